@@ -88,6 +88,7 @@ class KFModel:
                 ops.append(["enter", i])
             if d > 0:
                 ops.append(["exit", i])
+                ops.append(["exitx", i])      # the block is left through an exception
             ops.append(["encrypt", i])
             for s in self.store:
                 ops.append(["decrypt", i, s])
@@ -123,7 +124,7 @@ class KFModel:
                     o[1] = self.file
             o[0] += 1
             return ("ok", None)
-        if name == "exit":
+        if name in ("exit", "exitx"):
             o[0] -= 1
             if o[0] == 0:
                 o[1] = None
@@ -173,12 +174,15 @@ class World:
     def __init__(self, tmp, nobj):
         from cincoconfig import KeyFile
         self.KeyFile = KeyFile
-        self.dir = os.path.join(tmp, "kd")
+        from mc import core
+        # the directory lives under the (private) home directory: odd-numbered objects name the same file home-relative
+        self.dir = os.path.join(core.home_dir(), "kd")
         self.path = os.path.join(self.dir, "app.key")
+        self.names = [self.path if i % 2 == 0 else "~/kd/app.key" for i in range(nobj)]
         import shutil
         shutil.rmtree(self.dir, ignore_errors=True)
         os.makedirs(self.dir)
-        self.objs = [KeyFile(self.path) for _ in range(nobj)]
+        self.objs = [KeyFile(self.names[i]) for i in range(nobj)]
         self.model = KFModel(nobj)
         self.binding = {}
         self.cts = {}
@@ -219,6 +223,10 @@ class World:
             if name == "exit":
                 o.__exit__(None, None, None)
                 return ("ok", None)
+            if name == "exitx":
+                err = RuntimeError("the block failed")
+                r = o.__exit__(RuntimeError, err, None)
+                return ("ok", None) if not r else ("raise", AssertionError("__exit__ swallowed the exception"))
             if name == "encrypt":
                 sv = o.encrypt(PLAIN, method="xor")
                 return ("ok", sv)
@@ -226,7 +234,7 @@ class World:
                 from cincoconfig.encryption import SecureValue
                 return ("ok", o.decrypt(SecureValue("xor", self.cts[op[2]])))
             if name == "new":
-                self.objs[op[1]] = self.KeyFile(self.path)
+                self.objs[op[1]] = self.KeyFile(self.names[op[1]])
                 return ("ok", None)
         except Exception as exc:  # noqa
             return ("raise", exc)
